@@ -496,7 +496,14 @@ func (o *cycleObs) AfterEvent(i int, e sim.Event, w *sim.World, m *sim.Model) er
 }
 
 func settled(wd string, base int, when string) error {
-	deadline := time.Now().Add(3 * time.Second)
+	return settledWithin(wd, base, when, 3*time.Second)
+}
+
+// settledWithin polls until nothing of the plugin is left (or the grace period is over): refresh runs that were under way
+// when Cleanup arrived wind down in bounded time (the store layer retries closing an already closed database for a few
+// seconds per entry); what is still there after the grace period stays for ever.
+func settledWithin(wd string, base int, when string, grace time.Duration) error {
+	deadline := time.Now().Add(grace)
 	for {
 		g := repoGoroutines()
 		fds := fdsInto(wd)
